@@ -238,6 +238,19 @@ func (s *storage) Fetch(ctx context.Context, plainBR blob.Ref) (io.ReadCloser, u
 		return nil, 0, fmt.Errorf("encrypt: encrypted blob %s failed validation: %w", encBR, err)
 	}
 
+	// The meta row that led here is only as trustworthy as the wrapped meta
+	// store: data and meta ciphertexts share format and key, so a data blob
+	// with meta-shaped content can be planted as a meta blob. The plaintext ref
+	// is the one thing the caller vouches for: check the bytes against it.
+	plainHash := plainBR.Hash()
+	if plainHash == nil {
+		return nil, 0, fmt.Errorf("encrypt: invalid blob type %v; no registered hash function", plainBR)
+	}
+	plainHash.Write(plainBytes.Bytes())
+	if !plainBR.HashMatches(plainHash) || uint32(plainBytes.Len()) != plainSize {
+		return nil, 0, blobserver.ErrCorruptBlob
+	}
+
 	return io.NopCloser(plainBytes), plainSize, nil
 }
 
